@@ -119,7 +119,9 @@ def run_impl(lines, profile="debug", errno=None, shards=NPROC, timeout=1800):
 
 
 def run_model(lines, profile="debug", timeout=1800):
-    cmd = [os.path.join(OCAML, "driver")] + (["--release"] if profile == "release" else [])
+    # deep (non tail-recursive) list functions of the extracted model need a big stack on long histories
+    cmd = ["sh", "-c", 'ulimit -s unlimited 2>/dev/null || ulimit -s 4000000 2>/dev/null; exec "$0" "$@"',
+           os.path.join(OCAML, "driver")] + (["--release"] if profile == "release" else [])
     return run_sharded(cmd, lines, timeout=timeout)
 
 
